@@ -284,9 +284,14 @@ def correspondence(ctx: Ctx):
         elif which == "astara":
             x = _gauss(rng, (p.n,), -4, 4, 0.1)
             img = p.image(x)
-            yield {"line": line("astara", [p.n, p.c], *p.groups(), _cints(x)),
+            xc, xg = 2, _cints(x)
+            if rng.random() < 0.08:        # malformed: trailing axis of size 3
+                xc = 3
+                img = torch.cat([img, img[..., :1]], dim=-1)
+                xg = [int(v) for v in img.reshape(-1).tolist()]
+            yield {"line": line("astara", [p.n, p.c, xc], *p.groups(), xg),
                    "impl": _guard(lambda cgm=cgm, img=img, S=S, m=m: _frac_answer(cgm._A_star_A_op(img, S, m).reshape(-1).tolist())),
-                   "nontrivial": p.n >= 2, "bucket": f"astara/{p.mode}/mask={p.mask_kind}"}
+                   "nontrivial": p.n >= 2, "bucket": f"astara/{p.mode}/mask={p.mask_kind}" + ("/malformed=complex3" if xc == 3 else "")}
         else:
             x = _gauss(rng, (p.n,), -4, 4, 0.1)
             img = p.image(x)
@@ -647,7 +652,10 @@ def oracle(ctx: Ctx, deep: bool = False):
                "mask": rng.choice(["empty", "full", "random", "random", "columns"]),
                "scaling": rng.choice([None, None, 0.5, 3.0, 0.01]), "sens_scale": rng.choice([1.0, 1.0, 0.2, 5.0]),
                "premask": rng.random() < 0.5}
-        fails, info = _loglik_case(prm)
+        try:
+            fails, info = _loglik_case(prm)
+        except Exception as e:  # noqa: BLE001 - a well-formed problem must not raise
+            fails, info = [("loglik-raises", f"MRILogLikelihood raises {err_name(e)} on a well-formed problem: {e}"[:300])], {}
         ctx.count(("ll", tuple(prm["shape"]), prm["seed"]), h_ * w_ >= 2 and prm["mask"] != "empty",
                   sample={"op": "oracle/loglik", **{k: prm[k] for k in ("shape", "centered", "normalized", "mask")}, **info},
                   bucket=f"oracle/loglik/{'centred' if prm['centered'] else 'uncentred'}/"
@@ -664,7 +672,10 @@ def oracle(ctx: Ctx, deep: bool = False):
                "centered": rng.random() < 0.5, "mask": rng.choice(["empty", "full", "random", "random", "columns"]),
                "lam": min(max(lam, 0.05), 10.0), "update": "FR" if i % 2 == 0 else "PRP",
                "sens_scale": rng.choice([1.0, 1.0, 0.3, 2.0])}
-        fails, info = _cg_case(prm)
+        try:
+            fails, info = _cg_case(prm)
+        except Exception as e:  # noqa: BLE001
+            fails, info = [("cg-raises", f"ConjGrad raises {err_name(e)} on a well-formed problem: {e}"[:300])], {}
         ctx.count(("cg", tuple(prm["shape"]), prm["seed"]), h_ * w_ >= 2 and prm["mask"] != "empty",
                   sample={"op": "oracle/cg", **{k: prm[k] for k in ("shape", "centered", "mask", "lam", "update")}, **info},
                   bucket=f"oracle/cg/{prm['update']}/{'centred' if prm['centered'] else 'uncentred'}/mask={prm['mask']}/"
@@ -676,8 +687,11 @@ def oracle(ctx: Ctx, deep: bool = False):
 def replay(rep: dict) -> bool:
     """Re-run a recorded failing case on the implementation; True when it still fails."""
     prm = {k: v for k, v in rep.items() if k != "observed"}
-    if rep.get("op") == "loglik":
-        return bool(_loglik_case(prm)[0])
-    if rep.get("op") == "cg":
-        return bool(_cg_case(prm)[0])
+    try:
+        if rep.get("op") == "loglik":
+            return bool(_loglik_case(prm)[0])
+        if rep.get("op") == "cg":
+            return bool(_cg_case(prm)[0])
+    except Exception:  # noqa: BLE001
+        return True
     return True
